@@ -214,6 +214,9 @@ func init() {
 				{Pkg: fsm, Func: "VH_C03_batching", Args: []int64{2, 2, 0, 1}, Unwind: 32},
 				{Pkg: fsm, Func: "VH_C03_batching", Args: []int64{3, 1, 0, 1}, Unwind: 32},
 				{Pkg: fsm, Func: "VH_C03_rangethenread", Args: []int64{1, 1}, Unwind: 32},
+				{Pkg: fsm, Func: "VH_C03_restart", Args: []int64{0, 0, 1}, Unwind: 32},
+				{Pkg: fsm, Func: "VH_C03_restart", Args: []int64{0, 1, 0}, Unwind: 32},
+				{Pkg: fsm, Func: "VH_C03_restart", Args: []int64{0, 2, 0}, Unwind: 32},
 				{Pkg: fsm, Func: "VH_C03_vacuity", Expect: "violated"},
 			}
 			if tier == "thorough" {
@@ -222,12 +225,12 @@ func init() {
 			}
 			return r
 		},
-		Covers: map[string][]string{"VH_C03_batching": {"end", "split"}, "VH_C03_rangethenread": {"end", "split"}},
+		Covers: map[string][]string{"VH_C03_batching": {"end", "split"}, "VH_C03_rangethenread": {"end", "split"}, "VH_C03_restart": {"end"}},
 		Bounds: map[string]string{
-			"quick":    "logs of 2 entries (no-op or put, each with/without leader index) and of 3 no-op entries (each with/without leader index), every partition into consecutive apply calls vs one call, arbitrary bookkeeping in the pre-state, strictly ascending indices (steps 1..64); a wildcard range delete followed by a put with prev_kv / a counted delete on a 0..1-pair pre-state, together vs separately",
+			"quick":    "logs of 2 entries (no-op or put, each with/without leader index) and of 3 no-op entries (each with/without leader index), every partition into consecutive apply calls vs one call, arbitrary bookkeeping in the pre-state, strictly ascending indices (steps 1..64); a wildcard range delete followed by a put with prev_kv / a counted delete on a 0..1-pair pre-state, together vs separately; restart: put-put-delete, put-delete-put and put-deleterange-put over arbitrary 1-byte keys (so a key is overwritten and then deleted), each command in its own apply call, close (flush) and reopen: content and index unchanged",
 			"thorough": "adds delete-range and transaction entries on a 0..1-pair pre-state, and 3-entry logs with puts",
 		},
-		Outside:     "reopen / snapshot transfer between apply calls (content preservation there is Pebble's; regatta's side is C04/C08); logs longer than 3 entries",
+		Outside:     "snapshot transfer between apply calls (C08); Pebble's own content preservation across a reopen, except for the contract of SingleDelete (model: it cancels one Set; a value written before comes back at the next flush); logs longer than 3 entries",
 		Assumptions: []string{"Pebble model M1", "two replicas = the same deterministic state machine code run on equal states (model clone)"},
 	}
 	props["C10"] = &Property{
